@@ -56,6 +56,7 @@ def is_str_op(c):
 def survey(prog):
     """(per-function op counts, first location per (function, op), call edges between library functions, all library functions)"""
     cnt = collections.Counter()
+    spliced_seen = set()
     where = {}
     edges = collections.defaultdict(set)
     funcs = set()
@@ -67,6 +68,13 @@ def survey(prog):
         for (bb, t, c) in b.call_sites(lambda c: True):
             if is_str_op(c) or c.path in PSEUDO_OPS:
                 k = (f, PSEUDO_OPS.get(c.path, c.path.split("::")[-1]))
+                src = b.blocks[bb].get("src")
+                if src is not None:
+                    # a block of a helper that was spliced into its callers: one place, counted once per function
+                    sk = (f, tuple(src), k[1])
+                    if sk in spliced_seen:
+                        continue
+                    spliced_seen.add(sk)
                 cnt[k] += 1
                 where.setdefault(k, b.where(bb, t.get("line")))
             if not is_str_op(c):
